@@ -143,6 +143,7 @@ def check(ctx):
     ctx.attempt(_eq_hash)
     ctx.attempt(forward.check_all, module_suffixes=('trs.trs', 'tract.tract'))
     ctx.attempt(common.embedded_case_consistency, modules=('trs.trs',))
+    ctx.attempt(common.clause_purity, [f for f in ctx.repo.funcs.values() if f.module.name.endswith(('trs.trs',))])
 
 
 def _subject_prov(ctx, fi):
